@@ -291,7 +291,7 @@ def char_cases():
 
 def run(tier, seed, t0):
     ts = list(trees(tier))
-    tasks = [dict(trees=ch, style0=i, all_styles=(tier == 'thorough')) for i, ch in enumerate(kernel.chunks(ts, 4000))]
+    tasks = [dict(trees=ch, style0=i, all_styles=True) for i, ch in enumerate(kernel.chunks(ts, 4000))]
     m = kernel.explore(eval_task, tasks)
     m = kernel.explore(char_task, list(kernel.chunks(char_cases(), 16)), merged=m)
     tc = transparency_cases()
@@ -305,7 +305,7 @@ def run(tier, seed, t0):
                exhaustive=True, trees=len(ts), must_refuse=n['must_refuse'], skipped_too_big=n['skipped_too_big'], transparency_pairs=n['pairs'], literal_refused=n['literal_refused'],
                bound='trees: all leaves, all depth-1 trees over 10 binary + 2 unary operators and 9 leaves, depth-2 trees with one composite operand (4 leaves on the other side), all operator '
                      'triples with both operands composite%s; 95 printable ASCII character literals + 7 escapes; %d integer positions x 4 definition styles, %d register positions x 11 '
-                     'alias definitions, both modes' % (' and depth-3 spines, all four rendering styles' if tier == 'thorough' else ' (rendering style rotating)', len(INT_TEMPLATES), len(REG_TEMPLATES)))
+                     'alias definitions, both modes' % (' and depth-3 spines' if tier == 'thorough' else '', len(INT_TEMPLATES), len(REG_TEMPLATES)))
     return kernel.finish(PROP, tier, seed, t0, m, cov, [
         'Python integer semantics is the documented evaluation rule; trees are bounded by value (|v| <= 2^70, shifts <= 64)',
         'character literals are demanded stand-alone (as documented) and through earlier constants, not inside larger expressions',
